@@ -1054,9 +1054,36 @@ def gen_floor_reentrant(rng, idx, big=False):
     return L
 
 
+def gen_floor_idle(rng, idx, big=False):
+    """Idle race: a burst source and a sparse source feed 2-3 parallel single-slot machines with
+    different cycle times; inputs are blocked and unblocked while machines are busy or idle; parts
+    arrive while several machines are free, so the idle-longest rule decides who receives them."""
+    L = _hdr(rng, idx)
+    B = FloorBuilder(rng)
+    a = B.dev('source', cyc=rng.choice([1, 2, 3]), budget=rng.choice(['2', '3', '4', '6']), pval=0)
+    b = B.dev('source', cyc=rng.choice([9, 12, 17, 24]), budget='inf', pval=0)
+    k = rng.choice([2, 2, 3])
+    ms = []
+    for j in range(k):
+        kind = rng.choice(['processor', 'processor', 'handler'])
+        ms.append(B.dev(kind, up=f'{a},{b}', cyc=rng.choice([1, 2, 4, 6, 8, 10, 14])))
+    B.dev('sink', up=','.join(map(str, ms)), cyc=0, collect=rng.choice([0, 1]))
+    L += B.L
+    sched = []
+    for _ in range(rng.randint(1, 5)):
+        t = rng.choice([0, 1, 2, 3, 4, 5, 7, 10, 13, 20, 26])
+        d = rng.choice(ms)
+        sched.append((t, ['block', str(d), '1']))
+        sched.append((t + rng.choice([1, 1, 2, 3, 6]), ['block', str(d), '0']))
+    _sched_ops(L, rng, sched)
+    L.append(['run', str(rng.choice([48, 64, 96]))])
+    L.append(['end'])
+    return L
+
+
 FAMILIES.update({'floorpf': gen_floor_procfirst, 'floorm': gen_floor_maint, 'floorb': gen_floor_batch, 'floorg': gen_floor_groups,
                  'floorp': gen_floor_pools, 'floors': gen_floor_special, 'floorl': gen_floor_late,
-                 'floorr': gen_floor_reentrant})
+                 'floorr': gen_floor_reentrant, 'floori': gen_floor_idle})
 
 
 # ------------------------------------------------------------------------ exhaustive enumerations
